@@ -1,6 +1,6 @@
 (* C10: value algebra and decision-diagram operations. *)
 From Coq Require Import List Arith Bool Lia.
-From DS Require Import Model.ADD.
+From DS Require Import Util.ListX Model.ADD.
 Import ListNotations.
 
 Lemma a_add_spec t x y : a_add t x y =
@@ -190,4 +190,290 @@ Proof.
   unfold clip, domain. destruct (inb (tally n k c) v) eqn:E; apply in_or_app.
   - left. apply in_map. apply domain_valid_tally_spec. exact E.
   - right. left. reflexivity.
+Qed.
+
+(* ====================== algebra of saturating addition ====================== *)
+Definition wt (t : atype) (x : aval) : Prop := match x with Some v => length v = length (a_max t) | None => True end.
+
+Lemma vadd_length a b : length a = length b -> length (vadd a b) = length a.
+Proof. intros H. unfold vadd. rewrite map_length, combine_length, H. apply Nat.min_id. Qed.
+Lemma vadd_comm : forall a b, vadd a b = vadd b a.
+Proof. unfold vadd. induction a as [|x a IH]; intros [|y b]; cbn [combine map]; try reflexivity. rewrite IH. f_equal. cbn. lia. Qed.
+Lemma vadd_assoc : forall a b c, vadd (vadd a b) c = vadd a (vadd b c).
+Proof. unfold vadd. induction a as [|x a IH]; intros [|y b] [|z c]; cbn [combine map]; try reflexivity. rewrite IH. f_equal. cbn. lia. Qed.
+Lemma vadd_nth a b i : length a = length b -> nth i (vadd a b) 0 = nth i a 0 + nth i b 0.
+Proof. revert b i. induction a as [|x a IH]; intros [|y b] [|i] H; try discriminate; cbn; try reflexivity. apply IH. cbn in H. lia. Qed.
+
+(* componentwise order and the two monotone ingredients of inb *)
+Definition vle_p (a b : list nat) : Prop := length a = length b /\ forall i, nth i a 0 <= nth i b 0.
+Lemma leb_all_iff v m : leb_all v m = true <-> vle_p v m.
+Proof.
+  unfold leb_all, vle_p. rewrite andb_true_iff, Nat.eqb_eq. split; intros [Hl H]; split; auto.
+  - revert m Hl H. induction v as [|x v IH]; intros [|y m] Hl H i; try discriminate; [destruct i; cbn; lia|].
+    cbn [combine forallb fst snd] in H. apply andb_prop in H as [H1 H2]. apply Nat.leb_le in H1.
+    destruct i; cbn [nth]; [exact H1|]. apply IH; [cbn in Hl; lia|exact H2].
+  - revert m Hl H. induction v as [|x v IH]; intros [|y m] Hl H; try discriminate; [reflexivity|].
+    cbn [combine forallb fst snd]. rewrite (proj2 (Nat.leb_le x y)) by (apply (H 0%nat)). cbn [andb].
+    apply IH; [cbn in Hl; lia|]. intros i. apply (H (S i)).
+Qed.
+Lemma sum_nat_le : forall a b, length a = length b -> (forall i, nth i a 0 <= nth i b 0) -> sum_nat a <= sum_nat b.
+Proof.
+  induction a as [|x a IH]; intros [|y b] Hl H; try discriminate; [lia|]. cbn [sum_nat fold_right].
+  pose proof (H 0%nat) as H0. cbn in H0. assert (sum_nat a <= sum_nat b) by (apply IH; [cbn in Hl; lia|intros i; apply (H (S i))]).
+  unfold sum_nat in *. lia.
+Qed.
+Lemma nth_firstn_lt {A} (d : A) : forall c i (l : list A), i < c -> nth i (firstn c l) d = nth i l d.
+Proof. induction c as [|c IH]; intros i l H; [lia|]. destruct l as [|x l]; [destruct i; reflexivity|]. destruct i; cbn; [reflexivity|]. apply IH. lia. Qed.
+Lemma nth_firstn_skipn c k (v : list nat) i : nth i (firstn c (skipn k v)) 0 = if i <? c then nth (k + i) v 0 else 0.
+Proof.
+  destruct (Nat.ltb_spec i c) as [H|H].
+  - rewrite nth_firstn_lt by exact H. apply nth_skipn_add.
+  - apply nth_overflow. rewrite firstn_length. lia.
+Qed.
+
+(* inb is downward closed among vectors of the right length *)
+Theorem inb_down t a b : length a = length b -> (forall i, nth i a 0 <= nth i b 0) -> inb t b = true -> inb t a = true.
+Proof.
+  intros Hl Hle Hb. unfold inb in *. apply andb_prop in Hb as [H1 H2]. apply leb_all_iff in H1 as [L1 B1].
+  apply andb_true_intro. split.
+  - apply leb_all_iff. split; [congruence|]. intros i. specialize (Hle i). specialize (B1 i). lia.
+  - destruct (a_tally t) as [[k c]|]; [|reflexivity]. apply andb_prop in H2 as [S1 S2]. apply Nat.leb_le in S1. apply Nat.leb_le in S2.
+    apply andb_true_intro. split; apply Nat.leb_le.
+    + eapply Nat.le_trans; [|exact S1]. apply sum_nat_le.
+      * rewrite !firstn_length, !skipn_length, Hl. reflexivity.
+      * intros i. rewrite !nth_firstn_skipn. destruct (i <? c); [apply Hle|lia].
+    + eapply Nat.le_trans; [|exact S2]. apply sum_nat_le.
+      * rewrite !firstn_length, !skipn_length, Hl. reflexivity.
+      * intros i. rewrite !nth_firstn_skipn. destruct (i <? c); [apply Hle|lia].
+Qed.
+
+Lemma inb_length t v : inb t v = true -> length v = length (a_max t).
+Proof. unfold inb. intros H. apply andb_prop in H as [H _]. apply leb_all_iff in H as [H _]. exact H. Qed.
+
+Lemma a_add_comm t x y : a_add t x y = a_add t y x.
+Proof. destruct x, y; cbn [a_add]; try reflexivity. rewrite vadd_comm. reflexivity. Qed.
+
+Lemma clip_some t v w : clip t v = Some w -> w = v /\ inb t v = true.
+Proof. unfold clip. destruct (inb t v) eqn:E; intros H; [injection H as <-; auto|discriminate]. Qed.
+
+(* both groupings of three saturating additions equal the clipped total *)
+Lemma a_add3 t a b c : length a = length (a_max t) -> length b = length (a_max t) -> length c = length (a_max t) ->
+  a_add t (a_add t (Some a) (Some b)) (Some c) = clip t (vadd (vadd a b) c).
+Proof.
+  intros La Lb Lc. cbn [a_add]. unfold clip at 1. destruct (inb t (vadd a b)) eqn:E; [reflexivity|].
+  cbn [a_add]. unfold clip. destruct (inb t (vadd (vadd a b) c)) eqn:E2; [|reflexivity]. exfalso.
+  assert (H : inb t (vadd a b) = true).
+  { apply (inb_down t (vadd a b) (vadd (vadd a b) c)); [| |exact E2].
+    - rewrite !vadd_length; rewrite ?vadd_length; congruence.
+    - intros i. rewrite (vadd_nth (vadd a b) c) by (rewrite vadd_length; congruence). lia. }
+  congruence.
+Qed.
+
+Theorem a_add_assoc t x y z : wt t x -> wt t y -> wt t z -> a_add t (a_add t x y) z = a_add t x (a_add t y z).
+Proof.
+  destruct x as [a|], y as [b|], z as [c|]; cbn [wt]; intros La Lb Lc; try reflexivity.
+  - rewrite a_add3 by assumption. rewrite (a_add_comm t (Some a) (a_add t (Some b) (Some c))). rewrite a_add3 by assumption.
+    f_equal. rewrite (vadd_comm (vadd b c) a), vadd_assoc. reflexivity.
+  - cbn [a_add]. destruct (clip t (vadd a b)); reflexivity.
+Qed.
+
+Lemma a_add_wt t x y : wt t x -> wt t y -> wt t (a_add t x y).
+Proof.
+  destruct x as [a|], y as [b|]; cbn [a_add wt]; auto. intros La Lb. unfold clip. destruct (inb t (vadd a b)) eqn:E; [|exact I].
+  cbn [wt]. apply inb_length in E. exact E.
+Qed.
+Lemma a_zero_wt t : wt t (a_zero t).
+Proof. cbn. apply repeat_length. Qed.
+Lemma vadd_zero_l n a : length a = n -> vadd (repeat 0 n) a = a.
+Proof. revert n. unfold vadd. induction a as [|x a IH]; intros [|n] H; try discriminate; [reflexivity|]. cbn. rewrite IH by (cbn in H; lia). reflexivity. Qed.
+
+(* ====================== diagrams ====================== *)
+Definition wt_node (t : atype) (n : node) : Prop := wt t (n_a0 n) /\ wt t (n_a1 n).
+Definition wt_levels (t : atype) (lvls : list (list node)) : Prop := forall l n, In l lvls -> In n l -> wt_node t n.
+Fixpoint live_from (t : atype) (lvls : list (list node)) (j : nat) : Prop :=
+  match lvls with
+  | [] => True
+  | l :: rest => j < length l /\ n_live (getnode t l j) = true
+                 /\ live_from t rest (n_c0 (getnode t l j)) /\ live_from t rest (n_c1 (getnode t l j))
+  end.
+
+Lemma dead_wt t : wt_node t (dead t).
+Proof. split; apply a_zero_wt. Qed.
+Lemma getnode_wt t l j : (forall n, In n l -> wt_node t n) -> wt_node t (getnode t l j).
+Proof.
+  intros H. unfold getnode. destruct (Nat.lt_ge_cases j (length l)) as [Hj|Hj]; [apply H, nth_In; exact Hj|].
+  rewrite nth_overflow by exact Hj. apply dead_wt.
+Qed.
+Lemma adder_wt t n b : wt_node t n -> wt t (adder n b).
+Proof. intros [H0 H1]. destruct b; assumption. Qed.
+Lemma wt_levels_tail t l rest : wt_levels t (l :: rest) -> wt_levels t rest.
+Proof. intros H l' n Hl Hn. apply (H l' n); [right; exact Hl|exact Hn]. Qed.
+Lemma wt_levels_head t l rest : wt_levels t (l :: rest) -> forall n, In n l -> wt_node t n.
+Proof. intros H n Hn. apply (H l n); [left; reflexivity|exact Hn]. Qed.
+Lemma live_from_child t rest n b : live_from t rest (n_c0 n) -> live_from t rest (n_c1 n) -> live_from t rest (child n b).
+Proof. destruct b; auto. Qed.
+
+Lemma upd_dead t cur v : upd_node t cur v (dead t) = dead t.
+Proof. reflexivity. Qed.
+Lemma getnode_map_upd t cur v prev j : getnode t (map (upd_node t cur v) prev) j = upd_node t cur v (getnode t prev j).
+Proof. unfold getnode. rewrite <- (upd_dead t cur v) at 1. apply map_nth. Qed.
+
+(* one merged step equals the two original steps *)
+Lemma restrict_step t prev cur rest j acc b v x :
+  wt_levels t (prev :: cur :: rest) -> wt t acc -> n_live (getnode t prev j) = true ->
+  eval_from t (map (upd_node t cur v) prev :: rest) j acc (b :: x)
+  = eval_from t (prev :: cur :: rest) j acc (b :: v :: x).
+Proof.
+  intros Hwt Hacc Hlive. cbn [eval_from]. rewrite getnode_map_upd.
+  set (n := getnode t prev j). fold n in Hlive. unfold upd_node. rewrite Hlive.
+  set (m := getnode t cur (child n b)).
+  assert (Wn : wt_node t n) by (apply getnode_wt, (wt_levels_head t prev (cur :: rest) Hwt)).
+  assert (Wm : wt_node t m) by (apply getnode_wt, (wt_levels_head t cur rest (wt_levels_tail t prev _ Hwt))).
+  assert (Ech : child (mkNode true (child (getnode t cur (n_c0 n)) v) (child (getnode t cur (n_c1 n)) v)
+                              (a_add t (n_a0 n) (adder (getnode t cur (n_c0 n)) v)) (a_add t (n_a1 n) (adder (getnode t cur (n_c1 n)) v))) b
+                = child m v) by (unfold m; destruct b; reflexivity).
+  assert (Ead : adder (mkNode true (child (getnode t cur (n_c0 n)) v) (child (getnode t cur (n_c1 n)) v)
+                              (a_add t (n_a0 n) (adder (getnode t cur (n_c0 n)) v)) (a_add t (n_a1 n) (adder (getnode t cur (n_c1 n)) v))) b
+                = a_add t (adder n b) (adder m v)) by (unfold m; destruct b; reflexivity).
+  rewrite Ech, Ead. f_equal. symmetry. apply a_add_assoc; [exact Hacc|apply adder_wt; exact Wn|apply adder_wt; exact Wm].
+Qed.
+
+(* restrict of a variable that is not the first one: the original with that variable fixed *)
+Theorem eval_restrict_pos t v : forall k lvls j acc x,
+  wt_levels t lvls -> wt t acc -> live_from t lvls j -> S k < length lvls -> S (length x) = length lvls ->
+  eval_from t (restrict_levels t lvls (S k) v) j acc x = eval_from t lvls j acc (firstn (S k) x ++ v :: skipn (S k) x).
+Proof.
+  induction k as [|k IH]; intros lvls j acc x Hwt Hacc Hlive Hlen Hx.
+  - destruct lvls as [|prev [|cur rest]]; cbn [length] in Hlen; try lia.
+    destruct x as [|b x]; [cbn in Hx; lia|]. cbn [restrict_levels firstn skipn app].
+    apply restrict_step; [exact Hwt|exact Hacc|]. destruct Hlive as [_ [Hl _]]. exact Hl.
+  - destruct lvls as [|l [|l2 rest]]; cbn [length] in Hlen; try lia.
+    destruct x as [|b x]; [cbn in Hx; lia|].
+    change (restrict_levels t (l :: l2 :: rest) (S (S k)) v) with (l :: restrict_levels t (l2 :: rest) (S k) v).
+    cbn [firstn skipn app eval_from]. destruct Hlive as [Hj [Hl [H0 H1]]].
+    apply IH.
+    + apply (wt_levels_tail t l). exact Hwt.
+    + apply a_add_wt; [exact Hacc|]. apply adder_wt. apply getnode_wt. apply (wt_levels_head t l _ Hwt).
+    + apply live_from_child; assumption.
+    + cbn [length]. lia.
+    + cbn [length] in *. lia.
+Qed.
+
+(* restrict of the FIRST variable (needs a next level: otherwise the code raises, finding F12) *)
+Lemma getnode_set_node t j n l : j < length l -> getnode t (set_node j n l) j = n.
+Proof.
+  intros H. unfold getnode, set_node. rewrite app_nth2; rewrite firstn_length, Nat.min_l by lia; [|lia].
+  rewrite Nat.sub_diag. reflexivity.
+Qed.
+
+Theorem eval_restrict_root t l0 l1 rest root v x :
+  wt_levels t (l0 :: l1 :: rest) ->
+  let r := getnode t l0 root in let root' := child r v in let n := getnode t l1 root' in
+  root' < length l1 -> x <> [] ->
+  eval_from t (set_node root' (mkNode (n_live n) (n_c0 n) (n_c1 n) (a_add t (n_a0 n) (adder r v)) (a_add t (n_a1 n) (adder r v))) l1 :: rest)
+            root' (a_zero t) x
+  = eval_from t (l0 :: l1 :: rest) root (a_zero t) (v :: x).
+Proof.
+  intros Hwt r root' n Hr Hx. destruct x as [|b x]; [contradiction|]. cbn [eval_from]. fold r. fold root'.
+  rewrite getnode_set_node by exact Hr. fold n.
+  assert (Wr : wt_node t r) by (apply getnode_wt, (wt_levels_head t l0 _ Hwt)).
+  assert (Wn : wt_node t n) by (apply getnode_wt, (wt_levels_head t l1 rest (wt_levels_tail t l0 _ Hwt))).
+  assert (Ech : child (mkNode (n_live n) (n_c0 n) (n_c1 n) (a_add t (n_a0 n) (adder r v)) (a_add t (n_a1 n) (adder r v))) b = child n b)
+    by (destruct b; reflexivity).
+  assert (Ead : adder (mkNode (n_live n) (n_c0 n) (n_c1 n) (a_add t (n_a0 n) (adder r v)) (a_add t (n_a1 n) (adder r v))) b
+                = a_add t (adder n b) (adder r v)) by (destruct b; reflexivity).
+  rewrite Ech, Ead. f_equal.
+  rewrite (a_add_comm t (adder n b) (adder r v)).
+  symmetry. apply a_add_assoc; [apply a_zero_wt|apply adder_wt; exact Wr|apply adder_wt; exact Wn].
+Qed.
+
+(* ---------- sum: the product construction ---------- *)
+Lemma plookup_spec key : forall m k, plookup key m = Some k -> nth k m (0, 0) = key /\ k < length m.
+Proof.
+  induction m as [|h m IH]; intros k H; cbn [plookup] in H; [discriminate|].
+  destruct (Nat.eqb (fst h) (fst key) && Nat.eqb (snd h) (snd key)) eqn:E.
+  - injection H as <-. apply andb_prop in E as [E1 E2]. apply Nat.eqb_eq in E1. apply Nat.eqb_eq in E2.
+    cbn [nth length]. split; [destruct h, key; cbn in *; congruence|lia].
+  - destruct (plookup key m) as [k'|]; [|discriminate]. injection H as <-. destruct (IH k' eq_refl) as [H1 H2].
+    cbn [nth length]. split; [exact H1|lia].
+Qed.
+
+Lemma setdefault_spec key m : let '(m', k) := setdefault key m in
+  nth k m' (0, 0) = key /\ k < length m' /\ exists suffix, m' = m ++ suffix.
+Proof.
+  unfold setdefault. destruct (plookup key m) as [k|] eqn:E.
+  - destruct (plookup_spec key m k E) as [H1 H2]. split; [exact H1|]. split; [exact H2|]. exists []. rewrite app_nil_r. reflexivity.
+  - split; [rewrite app_nth2 by lia; rewrite Nat.sub_diag; reflexivity|]. split; [rewrite app_length; cbn; lia|]. exists [key]. reflexivity.
+Qed.
+
+(* what one level of the product construction produces *)
+Lemma sum_level_spec t l1 l2 : forall pn cn,
+  let '(nodes, cn') := sum_level t l1 l2 pn cn in
+  length nodes = length pn /\ (exists suffix, cn' = cn ++ suffix) /\
+  forall k, k < length pn ->
+    let ij := nth k pn (0, 0) in
+    let n1 := getnode t l1 (fst ij) in let n2 := getnode t l2 (snd ij) in
+    let nd := nth k nodes (dead t) in
+    n_live nd = true /\
+    (forall b, adder nd b = a_add t (adder n1 b) (adder n2 b)) /\
+    (forall b, nth (child nd b) cn' (0, 0) = (child n1 b, child n2 b) /\ child nd b < length cn').
+Proof.
+  induction pn as [|[i j] pn IH]; intros cn; cbn [sum_level].
+  - split; [reflexivity|]. split; [exists []; rewrite app_nil_r; reflexivity|]. intros k Hk. cbn in Hk. lia.
+  - set (n1 := getnode t l1 i). set (n2 := getnode t l2 j).
+    pose proof (setdefault_spec (n_c0 n1, n_c0 n2) cn) as S0. destruct (setdefault (n_c0 n1, n_c0 n2) cn) as [cn0 k0].
+    pose proof (setdefault_spec (n_c1 n1, n_c1 n2) cn0) as S1. destruct (setdefault (n_c1 n1, n_c1 n2) cn0) as [cn1 k1].
+    specialize (IH cn1). destruct (sum_level t l1 l2 pn cn1) as [nodes cn'].
+    destruct S0 as [A0 [B0 [s0 E0]]]. destruct S1 as [A1 [B1 [s1 E1]]]. destruct IH as [L [[s2 E2] H]].
+    split; [cbn [length]; lia|]. split; [exists (s0 ++ s1 ++ s2); rewrite E2, E1, E0, <- !app_assoc; reflexivity|].
+    intros k Hk. destruct k as [|k].
+    + cbn [nth fst snd]. fold n1 n2. split; [reflexivity|]. split; [intros []; reflexivity|].
+      intros b. destruct b; cbn [child n_c0 n_c1].
+      * split; [rewrite E2, app_nth1 by exact B1; exact A1|rewrite E2, app_length; lia].
+      * split; [rewrite E2, E1, <- app_assoc, app_nth1 by exact B0; exact A0|rewrite E2, E1, !app_length; lia].
+    + cbn [nth length] in *. apply H. lia.
+Qed.
+
+Lemma getnode_app_l t a b k : k < length a -> getnode t (a ++ b) k = getnode t a k.
+Proof. intros H. unfold getnode. apply app_nth1. exact H. Qed.
+
+Theorem eval_sum_levels t : forall ls1 ls2 pn w k acc1 acc2 x,
+  length ls1 = length ls2 -> wt_levels t ls1 -> wt_levels t ls2 -> wt t acc1 -> wt t acc2 -> k < length pn ->
+  eval_from t (sum_levels t ls1 ls2 pn w) k (a_add t acc1 acc2) x
+  = a_add t (eval_from t ls1 (fst (nth k pn (0, 0))) acc1 x) (eval_from t ls2 (snd (nth k pn (0, 0))) acc2 x).
+Proof.
+  induction ls1 as [|l1 r1 IH]; intros [|l2 r2] pn w k acc1 acc2 x Hlen W1 W2 A1 A2 Hk; try discriminate.
+  - reflexivity.
+  - cbn [sum_levels]. pose proof (sum_level_spec t l1 l2 pn []) as S. destruct (sum_level t l1 l2 pn []) as [nodes cn].
+    destruct S as [L [_ H]]. destruct x as [|b x]; [reflexivity|]. cbn [eval_from].
+    rewrite getnode_app_l by lia. specialize (H k Hk). cbv zeta in H. destruct H as [_ [Had Hch]].
+    destruct (Hch b) as [Hc1 Hc2]. change (getnode t nodes k) with (nth k nodes (dead t)). rewrite (Had b).
+    set (n1 := getnode t l1 (fst (nth k pn (0, 0)))) in *. set (n2 := getnode t l2 (snd (nth k pn (0, 0)))) in *.
+    assert (Wn1 : wt t (adder n1 b)) by (apply adder_wt, getnode_wt, (wt_levels_head t l1 r1 W1)).
+    assert (Wn2 : wt t (adder n2 b)) by (apply adder_wt, getnode_wt, (wt_levels_head t l2 r2 W2)).
+    replace (a_add t (a_add t acc1 acc2) (a_add t (adder n1 b) (adder n2 b)))
+      with (a_add t (a_add t acc1 (adder n1 b)) (a_add t acc2 (adder n2 b))).
+    + rewrite (IH r2 cn w (child (nth k nodes (dead t)) b)); [rewrite Hc1; reflexivity| | | | | |exact Hc2];
+        try (cbn in Hlen; lia); try (eapply wt_levels_tail; eassumption); apply a_add_wt; assumption.
+    + rewrite (a_add_assoc t acc1 (adder n1 b)) by (auto; apply a_add_wt; assumption).
+      rewrite <- (a_add_assoc t (adder n1 b) acc2) by assumption.
+      rewrite (a_add_comm t (adder n1 b) acc2).
+      rewrite (a_add_assoc t acc2 (adder n1 b)) by assumption.
+      rewrite <- (a_add_assoc t acc1 acc2) by (auto; apply a_add_wt; assumption). reflexivity.
+Qed.
+
+Lemma a_add_zero_l t x : wt t x -> (match x with Some v => inb t v = true | None => True end) -> a_add t (a_zero t) x = x.
+Proof.
+  destruct x as [v|]; [|reflexivity]. cbn [wt a_add a_zero]. intros L H. rewrite vadd_zero_l by exact L. unfold clip. rewrite H. reflexivity.
+Qed.
+
+(* sum() evaluates to the pointwise (saturating) sum of its operands *)
+Theorem eval_sum d1 d2 x : d_type d2 = d_type d1 -> length (d_levels d1) = length (d_levels d2) ->
+  wt_levels (d_type d1) (d_levels d1) -> wt_levels (d_type d1) (d_levels d2) ->
+  inb (d_type d1) (repeat 0 (length (a_max (d_type d1)))) = true ->
+  eval (add_sum d1 d2) x = a_add (d_type d1) (eval d1 x) (eval d2 x).
+Proof.
+  intros Ht Hlen W1 W2 Hz. unfold eval, add_sum. cbn [d_type d_levels d_root]. rewrite Ht.
+  rewrite <- (a_add_zero_l (d_type d1) (a_zero (d_type d1))) at 1 by (auto using a_zero_wt).
+  rewrite (eval_sum_levels (d_type d1) (d_levels d1) (d_levels d2) [(d_root d1, d_root d2)]); auto using a_zero_wt.
 Qed.
